@@ -208,6 +208,14 @@ def run_C09(ctx, E):
     ctx.stage_info.append({"stage": "I->S sync", "runs_with_events": runs})
 
 
+def run_C13(ctx, E):
+    stage_mc_replay(ctx, E, "stream", "C13_MC", "C13_MC_%s.cfg" % ctx.tier)
+    drv = ctx.drv
+    if ctx.tier == "thorough":
+        drv = E.build_driver(ctx.work, race=True)
+    stage_record_trace(ctx, E, "io", "C13_Trace", "C13_Trace.cfg", drv=drv, heap="16g", env={"GORACE": "exitcode=66 halt_on_error=1"})
+
+
 def run_C10(ctx, E):
     ctx.exhaustive = True
     for e in (("e1", "e2", "e4") if ctx.tier == "quick" else ("e1", "e2", "e3", "e4")):
@@ -225,6 +233,20 @@ _seqhash_note = ("trusted: TLC, community modules; the digest is uninterpreted i
                  "in the replayer by a from-scratch BLAKE3 transcription pinned by the official test vectors; "
                  "double-stranded inputs containing Z or (under type DNA) U are outside the strand clause and not replayed")
 PROPS = {
+    "C13": dict(run=run_C13,
+                technique="TLC model checking of the streaming FASTA parser (producer / channel of capacity 0..3 / stalling "
+                          "consumer) over every small file, safety + termination; every file replayed in five layouts "
+                          "through all readers; TLC trace validation of recorded write/read and layout runs",
+                level_text="every file of <= 5 (quick) / 6 (thorough) lines over header / sequence / blank / comment x "
+                           "capacities 0..2 (0..3) x every interleaving: delivered = Records(file) at termination, prefix "
+                           "at all times, closed exactly once, no send after close, termination; each file is replayed as "
+                           "LF / no final newline / CRLF / re-wrapped / padded text through Parse, Read, ReadGz and "
+                           "ParseConcurrent (capacities 0, 1, 1000, stalled consumer, plain and gzip); recorded runs with "
+                           "1..200 records, sequences to 300000 letters (single lines beyond 64 KiB), capacities 0..1000 "
+                           "are judged by C13_Trace (thorough: under the race detector)",
+                level_note="trusted: TLC, community modules, the harness's layout writer (its lines are logged and "
+                           "Records(lines) is recomputed by TLC for files up to 2000 lines)",
+                rule="S->I: one case per in-domain file (25 reader/layout combinations each); I->S: one event per run"),
     "C09": dict(run=run_C09,
                 technique="TLC model checking of the goroutine/channel/WaitGroup model of the ligation simulator "
                           "(all interleavings, safety + termination) and exhaustive enumeration of abstract fragment "
